@@ -764,6 +764,28 @@ func (it *Interp) crcForgery(x, y Value) bool {
 		}
 		return false
 	}
+	// a value stitched together ONLY from bytes of (forgeable) checksum results - e.g. the first bytes of one stored
+	// checksum followed by the last bytes of another, as a short read into a reused buffer produces - is not forged
+	// data either: whether it equals a checksum is a relation between real checksums, the solver decides
+	var onlyResultLanes func(t *smt.Term) bool
+	onlyResultLanes = func(t *smt.Term) bool {
+		switch t.Op {
+		case smt.OpConcat:
+			return onlyResultLanes(t.Args[0]) && onlyResultLanes(t.Args[1])
+		case smt.OpExtract:
+			return tab.byID[t.Args[0]] != nil && forgeable(t.Args[0])
+		}
+		return false
+	}
+	if xs && ys && isRes(x) != isRes(y) {
+		other, res := x.(*smt.Term), y
+		if isRes(x) {
+			other, res = y.(*smt.Term), x
+		}
+		if other.Op == smt.OpConcat && onlyResultLanes(other) && forgeable(res) {
+			return false
+		}
+	}
 	if xs != ys {
 		if _, ok := x.(uint64); ok && !isRes(x) && isRes(y) && forgeable(y) {
 			return false
